@@ -136,7 +136,9 @@ def orig_clean_by_tomo_mask(self, tomo_list, tomo_masks, inplace=True, output_fi
         idx_to_remove = within_idx[mask_values == 0]
         subtomo_idx = tm.df.loc[idx_to_remove, "subtomo_id"].values
 
-        cleaned_motl.remove_feature("subtomo_id", subtomo_idx)
+        # only rows of this tomogram: subtomogram numbers may repeat in other tomograms
+        hits = (cleaned_motl.df["tomo_id"] == t) & cleaned_motl.df["subtomo_id"].isin(subtomo_idx)
+        cleaned_motl.df = cleaned_motl.df[~hits]
 
         print(f"Removed {str(idx_to_remove.shape[0])} particles from tomogram #{str(t)}")
 
